@@ -7,7 +7,7 @@ CFG = dict(
          "'|' '\\\\' 0x1f ',' 0x00 'N' '\\x00NULL' '\\\\N' '' , ints, floats, bools, NULL, missing; shifted siblings (a+sep+b,c)/(a,b+sep+c) and "
          "NULL/''/marker-text siblings) used in one of the modes enc (four encoders through accessors, byte-exact), ses (SessionWindow Add/Trigger + aggregator), agg (GroupAggregator "
          "Add/GetResults with count(*), collect(id)), cnt / glb (SQL with CountingWindow(N) / GLOBAL WINDOW TRIGGER WHEN count(*) >= N, "
-         "optional AS aliases); distinct = distinct (cfg, op list)",
+         "optional AS aliases); distinct = distinct (cfg, op list) Added late: session keys of struct rows (encoder op `sessionS`, cfg `structrows`). Every fifth case runs under WithHighPerformance (`preset high`), for C05/C06/C12/C13/C14/C16/C20 another fifth under WithLowLatency (`preset low`); every seventh case follows a noise prelude (failing statements, malformed rows, panicking sink / function in other instances).",
     assumptions=["strconv/fmt number formatting is a function of the float64 bits and injective on the generated floats (hypothesis fltOkT of the typed theorems); NaN and -0 are not generated",
                  "one Go type per GROUP BY column (the property's quantifier); int 1 and string \"1\" in one column render alike and are outside it",
                  "tumbling/sliding windows reach the same GroupAggregator and are tied through mode agg; session windows through mode ses (real SessionWindow driven by Add/Trigger without its goroutine) - not through SQL runs (clock-dependent)",
